@@ -90,11 +90,12 @@ const (
 	cprLockBlocked
 	cprKeyWait
 	cprPreload
+	cprQuiescentHeld
 	nCProbes
 )
 
 var cProbeNames = []string{"context_switch_at_internal_yield", "callback_reentered_reassembler", "close_invoked_while_other_call_in_flight",
-	"message_left_buffered_push_returned_after_close", "event_delivered_after_close_returned", "two_or_more_close_calls", "task_seen_blocked_on_real_lock", "task_parked_waiting_for_modelled_lock", "reassembler_preloaded_with_300_to_70000_events"}
+	"message_left_buffered_push_returned_after_close", "event_delivered_after_close_returned", "two_or_more_close_calls", "task_seen_blocked_on_real_lock", "task_parked_waiting_for_modelled_lock", "reassembler_preloaded_with_300_to_70000_events", "events_still_held_at_quiescence_judged_for_occupancy"}
 
 var cFaultNames = []string{"stalled_task", "clock_step", "reentrant_callback", "already_expired_timeout", "concurrent_close", "statement_level_preemption"}
 
@@ -384,7 +385,7 @@ func ExecCPlanFor(prop string) func(p *CPlan, trace bool) *core.Result {
 		if prop == "C11" {
 			var keep []core.Violation
 			for _, v := range res.Violations {
-				if v.Kind != "close-order" { // C11 does not speak about order
+				if v.Kind != "close-order" && v.Property != "C10" { // C11 does not speak about order, nor about occupancy
 					keep = append(keep, v)
 				}
 			}
@@ -397,6 +398,10 @@ func ExecCPlanFor(prop string) func(p *CPlan, trace bool) *core.Result {
 			case "message-not-delivered", "duplicate-delivery", "unknown-message":
 				v.Property = prop
 				keep = append(keep, v)
+			case "buffer-over-limit", "complete-head-kept":
+				if prop == "C10" {
+					keep = append(keep, v)
+				}
 			case "close-order":
 				// "Close delivers every buffered event once, in order" is C19's
 				if prop == "C19" {
@@ -735,6 +740,40 @@ func judgeC11(p *CPlan, evs []core.Ev, res *core.Result, sc *core.Sched, st *cSt
 	}
 	if allReturned && closeCalls > 0 && closeOK != 1 {
 		res.Add("C11", "close-winners", strconv.Itoa(closeOK), fmt.Sprintf("%d Close calls were made and %d returned nil", closeCalls, closeOK))
+	}
+	// C10 at quiescence: every call has returned and nobody closed, so whatever
+	// was pushed and not delivered is what the Reassembler still holds (there is
+	// no event that is detached and waiting for its callback any more). It holds
+	// at most maxInFlight events, and the oldest of them is not one that carries
+	// a terminating record. (Matters after re-entrant pushes: made from inside a
+	// callback of Maintain, they have to do their own clean-up.)
+	if allReturned && closeCalls == 0 && p.Preload == 0 && p.PreOpen == 0 {
+		held := map[uint32]bool{} // offset -> holds a terminating record
+		judge := true
+		for _, id := range sortedOpIDs(ops) {
+			o := ops[id]
+			if o.k == opPushBad && o.call >= 0 {
+				judge = false // (a record of unknown sequence may have been accepted)
+			}
+			if !(o.k == opPushMsg || o.k == opPushRaw) || o.call < 0 || o.ret < 0 || o.err || o.typ == tEOE || delivered[id] != 0 {
+				continue
+			}
+			held[o.off] = held[o.off] || o.typ < 1300 || o.typ >= 2100 || o.typ == 1327
+		}
+		if judge && len(held) > 0 {
+			res.Probes[cprQuiescentHeld]++
+			lowest := uint32(1<<32 - 1)
+			for off := range held {
+				if off < lowest {
+					lowest = off
+				}
+			}
+			if len(held) > p.Max {
+				res.Add("C10", "buffer-over-limit", "quiescent", fmt.Sprintf("all calls have returned, no Close: %d events are still held, maxInFlight is %d", len(held), p.Max))
+			} else if held[lowest] {
+				res.Add("C10", "complete-head-kept", "quiescent", fmt.Sprintf("all calls have returned, no Close: the oldest event still held (sequence offset %d) carries a terminating record", lowest))
+			}
+		}
 	}
 	if i := st.keptIntact(); i >= 0 {
 		res.Add("C11", "duplicate-delivery", "kept-slice", fmt.Sprintf("a slice that was handed to the Stream (%d messages) holds other messages at the end of the run", len(st.keptCopy[i])))
